@@ -64,7 +64,13 @@ def _driver(ch):
     keys = sorted(opsets.keys())
     dom, ver = ch.all("opset", keys)
     opset = opsets[(dom, ver)]
-    kind = ch.all("kind", ["method", "converse"])
+    kind = ch.all("kind", ["method", "converse", "membership"])
+    if kind == "membership":
+        # every op name the domain knows at ANY version, against this opset version
+        names = sorted({s.name for s in onnx.defs.get_all_schemas_with_history() if s.domain == dom})
+        chunk = 40
+        return {"domain": dom, "version": ver, "op": "*", "shape": ["membership"],
+                "names": ch.all("names", [names[i:i + chunk] for i in range(0, len(names), chunk)])}
     if kind == "converse":
         vis = _visible_schemas(dom, ver)
         name = ch.all("schema", sorted(vis))
@@ -261,6 +267,32 @@ def execute(item):
     def bad(kind, detail, scope=None):
         viols.append({"key": f"C17|{kind}|{scope or base}", "detail": {"version": ver, "what": detail}})
 
+    if shape[0] == "membership":
+        # dynamic lookup agrees with onnx.defs for names that exist in the domain only at other versions too
+        generic = values.Opset(dom, ver)
+        nk = []
+        for nm in item["names"]:
+            want = _schema_at(nm, ver, dom)
+            for tag, o in (("static", opset), ("generic", generic)):
+                got_in = nm in o
+                got_item = o[nm]
+                try:
+                    got_attr = getattr(o, nm) if tag == "generic" else None
+                except AttributeError:
+                    got_attr = None
+                if got_in != (want is not None):
+                    bad("dynamic-lookup", f"{tag}: '{nm}' in opset -> {got_in}, onnx.defs at {ver}: {want is not None}",
+                        scope=f"{dom or 'ai.onnx'}:__contains__")
+                if (got_item is not None) != (want is not None) or (
+                        got_item is not None and got_item.op_schema.since_version != want.since_version):
+                    bad("dynamic-lookup", f"{tag}: opset['{nm}'] -> {got_item}, onnx.defs at {ver}: {want is not None}",
+                        scope=f"{dom or 'ai.onnx'}:__getitem__")
+                if tag == "generic" and ((got_attr is not None) != (want is not None) or (
+                        got_attr is not None and got_attr.op_schema.since_version != want.since_version)):
+                    bad("dynamic-lookup", f"generic getattr '{nm}' -> {got_attr}", scope=f"{dom or 'ai.onnx'}:__getattr__")
+            nk.append(f"{dom}|{ver}|{nm}|membership")
+        return {"status": "viol" if viols else "ok", "outcome": "membership", "viols": viols, "nkey": nk,
+                "counts": {"extra_evaluations": len(item["names"]) - 1}}
     expected = _schema_at(name, ver, dom)
     if shape[0] == "converse":
         s = _visible_schemas(dom, ver)[name]
